@@ -73,6 +73,9 @@ def run_mono(case, ctx):
     nap = 1 if pkg['apertures'] is None else len(pkg['apertures'])
     order = convpkg.table_order(pkg, 'v1')
     labels = {'n_wav=%d' % nw, 'n_ap=%d' % nap, 'storage_' + pkg['storage']}
+    labels.add('sed_layout_' + pkg.get('sed_layout', 'flat'))
+    if pkg.get('par_gz'):
+        labels.add('parameters.fits.gz')
     todo = case.get('only')
     nruns = 0
     with ctx.tempdir() as d:
@@ -171,7 +174,7 @@ def run_mono(case, ctx):
         # must follow the NEW table
         if todo is None and nm >= 2:
             perm2 = list(pkg['perm'][1:]) + [pkg['perm'][0]]
-            pkgio.write_parameters(d, names, pkg['params'], order=perm2)
+            pkgio.write_parameters(d, names, pkg['params'], order=perm2, gz=bool(pkg.get('par_gz')))
             cdir = os.path.join(d, 'convolved')
             if os.path.isdir(cdir):
                 shutil.rmtree(cdir)
